@@ -61,7 +61,7 @@ Definition tc_rule (o : op) (args : list ty) : option ty :=
       | _ => None
       end
   | OBVRol w k | OBVRor w k =>
-      if (w <? k) || (w <? 0) then None
+      if (w <? k) || (w <? 0) || (k <? 0) then None
       else match args with
            | TBV a :: _ => if Z.eqb w a then Some (TBV w) else None
            | _ => None
@@ -126,7 +126,9 @@ Definition tc_rule (o : op) (args : list ty) : option ty :=
       end
   | OPow =>
       match args with
-      | a :: b :: _ => if ty_eqb a b then Some TReal else None
+      | a :: b :: _ =>
+          if negb (ty_eqb a b) then None
+          else match a with TReal | TInt => Some TReal | _ => None end
       | _ => None
       end
   end.
